@@ -96,6 +96,7 @@ package ers
 //@   requires sinv(e)
 //@   ensures len(result) == len(e.view) && (forall i: int :: 0 <= i && i < len(e.view) ==> result[i] == e.view[i])
 //@   loop 1 invariant 0 <= len(out) && len(out) <= len(e.view) && iter != nil && iter.next == e.nodes[len(out)] && (forall i: int :: 0 <= i && i < len(out) ==> out[i] == e.view[i])
+//@   loop 1 invariant fresh(backing(out))
 
 //@ pred plain(err error) = err != nil && !flattens(err)
 
